@@ -62,6 +62,21 @@ def run(ctx):
         else:
             ctx.violation("govet-nolint", "C11 fails under go vet -vettool: the nolint comment of a/x.go hides the diagnostic of b/x.go:12 (corpus/c11kf); without the comment it is reported\n%s" % text)
     ctx.obligation("go vet -vettool on corpus/c11kf: the control without the nolint comment reports b/x.go:12", shown_ctl)
+    # M12: what counts as a nolint directive -- real nolintContainsNilAway == extracted model on comment texts
+    from . import nolint_text_suite as NT
+    nt = NT.correspond(ctx.seed * 7919 + 11, 4000 if ctx.tier == "quick" else 80000)
+    ctx.obligation("directive-text correspondence ran", not nt["errors"])
+    ctx.obligation("correspondence (directive text): real nolintContainsNilAway == extracted model M12 on %d comment texts (%d structured directives, each also against the verdict theorem C11_directive_text_decides gives; mutated and malformed texts; %d suppress)" % (
+        nt["n"], nt["structured"], nt["suppress"]), not nt["errors"] and not nt["mism"] and not nt["wrong"])
+    for e in nt["errors"][:1]:
+        ctx.violation("nolint-text-suite", e, found_input=False)
+    for (t, a, e) in nt["wrong"][:2]:
+        ctx.violation("directive", "C11 fails on the real nolintContainsNilAway: the comment %r %s NilAway diagnostics, but a directive with this linter list must %s\nreplay: bin/harness nolinttext (bytes of the text after a marker number)\n" % (
+            t, "suppresses" if a == "1" else "does not suppress", "suppress" if e else "not suppress"))
+    if not nt["wrong"]:
+        for (t, a, b) in nt["mism"][:2]:
+            ctx.violation("directive-correspondence", "model M12 (coq/model/Nolint.v) and the real nolintContainsNilAway disagree on the comment %r: real %s, model %s; theorems C11_directive_* no longer speak about the code; no structured directive with a wrong verdict was found\n" % (t, a, b), found_input=False)
+    ctx.coverage.update({"directive_texts": nt["n"]})
     # Go-source corpus: regression programs of repaired findings (//line directives, directive spellings)
     from . import markers
     markers.corpus_modules(ctx, "c11", "nolint under //line directives; directive spellings", flagsets=(None, {"group-error-messages": "false"}))
